@@ -250,6 +250,48 @@ def rule_fresh(c: Ctx) -> RuleResult:
               f"every path from the dispatch to the next iteration / the exit stores {st}.tight: whatever a rule leaves there is overwritten"
               if ok else f"a path from the rule dispatch to the next iteration or the exit does not store {st}.tight: a rule's leftover "
                          f"tight flag would be read by the enclosing list")
+    # (1b) ... and what is stored describes the blank lines *before* the block just parsed: no name the stored value reads is
+    # recomputed between the dispatch and the store (copies are followed) - the blank line a block swallowed at its end counts
+    # for the next block, not for this one
+    from ..reach import Reaching
+    rd_ = Reaching(cfg)
+    heads_ = {x.id for x in cfg.nodes if x.kind == "join" and isinstance(x.ast, ast.While)}
+    after: set[int] = set()
+    stack_ = [m for cs in disp for n in cfg.owner(cs.node) for (m, l) in n.succ if l != "exc"]
+    while stack_:
+        x = stack_.pop()
+        if x.id in after or x.id in heads_ or x is cfg.exit:
+            continue
+        after.add(x.id)
+        stack_.extend(m for (m, l) in x.succ if l != "exc")
+    tstores = [x for x in cfg.nodes if x.id in after and x.kind == "stmt" and isinstance(x.ast, ast.Assign)
+               and any(U(t) == f"{st}.tight" for t in x.ast.targets)]
+    for S in tstores:
+        before: set[int] = set()
+        stack_ = [p for (p, l) in S.pred]
+        while stack_:
+            x = stack_.pop()
+            if x.id in before or x.id in heads_:
+                continue
+            before.add(x.id)
+            stack_.extend(p for (p, l) in x.pred)
+        between = after & before
+        bad_def = None
+
+        def stale(e: ast.AST, at: ast.AST, depth: int = 0):
+            nonlocal bad_def
+            for v in [y for y in ast.walk(e) if isinstance(y, ast.Name) and isinstance(y.ctx, ast.Load)]:
+                for d in rd_.at_ast(at, v.id):
+                    if d.node_id in between:
+                        if d.kind == "assign" and isinstance(d.value, ast.Name) and depth < 4:
+                            stale(d.value, d.stmt, depth + 1)
+                        elif bad_def is None:
+                            bad_def = d
+        stale(S.ast.value, S.ast)
+        r.add(f"{tok.short}|tight-value|{alpha(tok, S.ast)}", c.where(tok, S.ast), tok.short, U(S.ast), "discharged" if bad_def is None else "violation",
+              "the value stored reads only what was computed before the dispatch of the block just parsed" if bad_def is None else
+              f"`{bad_def.name}`, which the stored value reads, is recomputed (line {getattr(bad_def.stmt, 'lineno', '?')}) between the dispatch and "
+              f"this store: the blank line the block just parsed swallowed at its end makes the enclosing list loose")
     # (2) readers of tight in block rules are preceded by the rule's own literal store
     nread = 0
     for f, stn in sorted(K.items(), key=lambda kv: kv[0].qual):
